@@ -1554,10 +1554,12 @@ fn exec_linewise(args: &Opts) {
 				if args.edit_inplace {
 					// Written back only once every file has been processed (all or nothing)
 					pending_writes.push((path.clone(), std::mem::take(&mut output)));
-				} else {
-					if args.files.len() > 1 {
-						writeln!(stdout,"--- {}", path.display()).ok();
+				} else if args.files.len() > 1 {
+					// Like the multi-threaded path: a file with no output gets no header
+					if !output.is_empty() {
+						writeln!(stdout,"--- {}\n{}", path.display(), output).ok();
 					}
+				} else {
 					writeln!(stdout, "{output}").ok();
 				}
 			}
@@ -1639,10 +1641,12 @@ fn exec_files(args: &Opts) {
 					if args.edit_inplace {
 						// Written back only once every file has been processed (all or nothing)
 						pending_writes.push((path.clone(), std::mem::take(&mut output)));
-					} else {
-						if args.files.len() > 1 {
-							writeln!(stdout,"--- {}", path.display()).ok();
+					} else if args.files.len() > 1 {
+						// Like the multi-threaded path: a file with no output gets no header
+						if !output.is_empty() {
+							writeln!(stdout,"--- {}\n{}", path.display(), output).ok();
 						}
+					} else {
 						writeln!(stdout,"{output}").ok();
 					}
 				}
